@@ -1,9 +1,9 @@
 SPECIFICATION Spec
-CONSTANT MaxN = 4
+CONSTANT MaxN = 3
 CONSTANT MinN = 1
 CONSTANT Places = {"Cpu", "Npu", "MemN", "MemC"}
-CONSTANT MultiOut = FALSE
-CONSTANT SinkSees = "all"
+CONSTANT MultiOut = TRUE
+CONSTANT SinkSees = "first"
 CONSTANT AllowExtra = FALSE
 INVARIANT TypeOK
 INVARIANT TopoOrder
